@@ -111,6 +111,7 @@ def plan(quick):
                     jobs.append((c["index"], 0x1000, fill, half, preset))
             for preset in (0, 1):
                 jobs.append((c["index"], 0, "00", half, preset))      # operands of 0 point at the instruction itself
+            jobs.append((c["index"], 0, "ff", half, 1))              # pointers of all ones in low memory, index registers of all ones
             if not quick:
                 for pc in (0, top):
                     jobs.append((c["index"], pc, "ff", half, 0))
@@ -151,6 +152,7 @@ def run(ctx):
                       "sanitizer-prepare": "sanitizer report while constructing the simulator / setting the preset registers through set_reg",
                       "length": "pc advanced by the disassembled length of the bytes the instruction left behind, not of the instruction executed",
                       "exit-called": "the simulator called exit() (%s) instead of returning" % text,
+                      "outside": "the step stored to an address beyond the CPU's 64 KiB address space (a page of the image above 0xffff was written)",
                       "nondeterministic": "two simulators prepared identically give different results"}[kind]
             pat = CELLS.pattern(v, fill, half)
             ctx.violation("%s|%s|%x|%s|%d|p%d|%04x" % (name, kind, pc, fill, half, preset, v), kind,
